@@ -255,6 +255,52 @@ def supported(classes, t, seen=()) -> bool:
     return bijective(c) and all(supported(classes, f["ty"], seen + (t[1],)) for f in c["fields"])
 
 
+def any_leaf(classes, t, leaves, seen=()) -> bool:
+    if isinstance(t, str):
+        return t in leaves
+    if t[0] in ("list", "dict", "opt"):
+        return any_leaf(classes, t[1], leaves, seen)
+    if t[1] in seen:
+        return False
+    return any(any_leaf(classes, f["ty"], leaves, seen + (t[1],)) for f in classes[t[1]]["fields"])
+
+
+def has_opt_data(classes, t, seen=()) -> bool:
+    if isinstance(t, str):
+        return False
+    if t[0] == "opt":
+        u = t[1]
+        return (isinstance(u, list) and u[0] == "data") or has_opt_data(classes, u, seen)
+    if t[0] in ("list", "dict"):
+        return has_opt_data(classes, t[1], seen)
+    if t[1] in seen:
+        return False
+    return any(has_opt_data(classes, f["ty"], seen + (t[1],)) for f in classes[t[1]]["fields"])
+
+
+def lawful(classes, t) -> bool:
+    """the round-trip laws are claimed for dataclass roots whose reachable classes use supported leaf types,
+    bijective maps and defaults that are None / empty containers (the tolerated reappearance)"""
+    if not (isinstance(t, list) and t[0] == "data") or not supported(classes, t):
+        return False
+    seen, todo = set(), [t[1]]
+
+    def refs(t):
+        if isinstance(t, str):
+            return []
+        return [t[1]] if t[0] in ("data", "fwd") else refs(t[1])
+    while todo:
+        c = todo.pop()
+        if c in seen:
+            continue
+        seen.add(c)
+        for f in classes[c]["fields"]:
+            if f["default"] not in (None, ["n"], ["l", []], ["m", []]):
+                return False
+            todo += refs(f["ty"])
+    return True
+
+
 def mutate_doc(rng, classes, t, doc) -> tuple[Any, str | None]:
     """make a conforming document non-conforming in one place; returns (doc, python name of the innermost
     dataclass field that holds the offence, or None when the offence is not inside a dataclass field)"""
@@ -317,8 +363,14 @@ def gen_conv_case(rng, malformed: bool) -> dict:
         elif r < 0.8:
             plan.append({"step": "encode_decode", "ty": t, "val": gen_val(rng, classes, t)})
         elif r < 0.9:
-            doc = gen_doc(rng, classes, t)
-            plan.append({"step": "raw", "ty": t, "doc": doc})
+            # direct call on the exported converter (no registration): exercises the un-hooked branch of the model.
+            # Not for classes with hook-less leaf types: cattrs then fails while *building* the default hooks of
+            # un-hooked classes, a path structure_from_dict never takes and the model does not describe.
+            # Nor for Optional[dataclass]: the Union hook registers the variant itself (a state change the model
+            # does not thread through structure; irrelevant after structure_from_dict's own registration).
+            if not any_leaf(classes, t, ("uuid", "time")) and not has_opt_data(classes, t):
+                doc = gen_doc(rng, classes, t)
+                plan.append({"step": "raw", "ty": t, "doc": doc})
         else:
             # containers / Any holding dataclass instances at the root (registration is by declared types only)
             vals = [gen_val(rng, classes, ["data", rng.randrange(n)]) for _ in range(rng.randint(1, 2))]
@@ -343,7 +395,7 @@ def gen_ser_case(rng, cyclic: bool) -> dict:
             ks = rng.sample(DKEYS, rng.randint(0, 3))
             heap.append(["dict", [[k, rng.choice(targets)] for k in ks] if targets else []])
         else:
-            ks = rng.sample(["a", "b", "theC", "x-y", "id"], rng.randint(0, 3))
+            ks = rng.sample(["a", "b", "the_c", "x_y", "id_"], rng.randint(0, 3))   # attribute names (no Meta: see run_ser)
             heap.append(["data", [[k, rng.choice(targets)] for k in ks] if targets else []])
     return {"kind": "ser", "heap": heap, "root": n - 1 if not cyclic else rng.randrange(n)}
 
@@ -541,7 +593,7 @@ def run_conv(case: dict) -> dict:
                 ob, inst = do_structure(st["ty"], st["doc"])
                 if ob[0] == "Other":
                     fails.append(f"structure_from_dict raised {ob[1]} (not ValueError)")
-                if st["conforming"] and supported(case["classes"], st["ty"]):
+                if st["conforming"] and lawful(case["classes"], st["ty"]):
                     if ob[0] != "ok":
                         fails.append(f"conforming document rejected: {ob[1][:160]}")
                     else:
@@ -559,7 +611,7 @@ def run_conv(case: dict) -> dict:
                         stats["names_field_miss"] += 1
             elif k == "encode_decode":
                 ob = do_unstructure(st["val"])
-                good = supported(case["classes"], st["ty"]) and st["val"][0] == "D"
+                good = lawful(case["classes"], st["ty"]) and st["val"][0] == "D"
                 if good and ob[0] != "ok":
                     fails.append(f"encoding a conforming instance failed: {ob[1][:160]}")
                 if ob[0] == "ok":
@@ -619,6 +671,13 @@ def json_eq_mod(a, b) -> bool:
 
 
 # ---------------------------------------------------------------- serialiser
+SER_TIMEOUT = 0.6
+
+
+class _Timeout(BaseException):
+    pass
+
+
 def run_ser(case: dict) -> dict:
     cc = fresh_converter()
     import pyopenapi_gen.core.utils as U
@@ -635,9 +694,9 @@ def run_ser(case: dict) -> dict:
         elif o[0] == "dict":
             objs[i] = {}
         else:
-            names = [f"f{n}" for n in range(len(o[1]))]
-            meta = type("Meta", (), {"key_transform_with_dump": {f"f{n}": kv[0] for n, kv in enumerate(o[1])}})
-            k = dataclasses.make_dataclass(f"S{i}", [(nm, Any, None) for nm in names], namespace={"Meta": meta})
+            # Any-typed attributes, no Meta: key renaming is the converter's business (exercised by the conv cases);
+            # a class that is only reachable through Any is never registered, so it would keep its python names anyway
+            k = dataclasses.make_dataclass(f"S{i}", [(kv[0], Any, None) for kv in o[1]])
             classes[i] = k
             objs[i] = k()
 
@@ -650,11 +709,20 @@ def run_ser(case: dict) -> dict:
             for kk, r in o[1]:
                 objs[i][kk] = get(r)
         elif o[0] == "data":
-            for n, (_, r) in enumerate(o[1]):
-                setattr(objs[i], f"f{n}", get(r))
+            for nm, r in o[1]:
+                setattr(objs[i], nm, get(r))
     fails = []
+    import signal
+
+    def on_alarm(signum, frame):
+        raise _Timeout()
+    old = signal.signal(signal.SIGALRM, on_alarm)
     try:
-        r = U.DataclassSerializer.serialize(get(case["root"]))
+        signal.setitimer(signal.ITIMER_REAL, SER_TIMEOUT)
+        try:
+            r = U.DataclassSerializer.serialize(get(case["root"]))
+        finally:
+            signal.setitimer(signal.ITIMER_REAL, 0)
         try:
             json.dumps(r)
         except Exception as e:  # noqa: BLE001
@@ -665,9 +733,15 @@ def run_ser(case: dict) -> dict:
         ob: Any = ["ok", c]
     except NotModelled:
         raise
+    except _Timeout:
+        ob = ["Err", "Timeout"]
+        fails.append(f"serialize did not return within {SER_TIMEOUT}s (cattrs walks the cycle; RecursionError is swallowed "
+                     "inside its dispatcher and the walk branches again)")
     except BaseException as e:  # noqa: BLE001
         ob = ["Err", type(e).__name__]
         fails.append(f"serialize raised {type(e).__name__}")
+    finally:
+        signal.signal(signal.SIGALRM, old)
     return {"input": case, "obs": ob, "oracle_fail": fails, "stats": {}}
 
 
@@ -867,14 +941,18 @@ def main(chk: Check, replay: dict | None = None) -> int:
             print(f"VIOLATION property=C16 replay=(replayed) : {r['oracle_fail']}")
             return 1
         return 0
+    if os.environ.get("VERIF_DEBUG"):
+        import faulthandler, signal
+        faulthandler.register(signal.SIGUSR1, all_threads=True)
     chk.prove()
+    chk.say(f"[C16] proofs done at {__import__("time").time() - chk.t0:.1f}s")
     rng = chk.rng
     inputs = [c["input"] for c in load_corpus("C16")]
     n = 2500 if chk.thorough else 420
     for i in range(n):
         inputs.append(gen_conv_case(rng, malformed=(i % 3 == 2)))
     for i in range(n // 3):
-        inputs.append(gen_ser_case(rng, cyclic=(i % 2 == 1)))
+        inputs.append(gen_ser_case(rng, cyclic=(i % 4 == 3)))
     cases, skipped = [], 0
     for c in inputs:
         r = run_one(c)
